@@ -35,6 +35,7 @@ type Gen struct {
 	nAdv     int
 	OffFamily int
 	script   []step
+	everLocals []Cand // every local candidate ever accepted (live or released)
 	oldReq   []outstanding // requests of the generation ended by the last Restart
 	Scenario string
 }
@@ -610,6 +611,7 @@ func (g *Gen) After(o Op, obs []string) {
 	case "AL":
 		if ret == "ok" {
 			g.locals = append(g.locals, o.Cand)
+			g.everLocals = append(g.everLocals, o.Cand)
 		}
 	case "AR":
 		if ret == "ok" {
